@@ -227,9 +227,10 @@ class FileCase:
     __slots__ = ("src", "target", "files", "payload", "root_im", "file_im", "root_mo", "file_mo", "skipped", "tree")
 
 
-def run_case(project: Path, target_rel: str, src: str, excluded=(), excluded_imports=()):
+def run_case(project: Path, target_rel: str, src: str, excluded=(), excluded_imports=(), extra_config=None):
     """Real S2 and S4 on `src` written at project/target_rel; returns a FileCase (payload for the
-    model + the implementation's snapshots), or one with `.skipped` set."""
+    model + the implementation's snapshots), or one with `.skipped` set. `extra_config`: further
+    `Arguments` overrides for the run (e.g. `_follow_imports_level`)."""
     c = FileCase()
     c.src, c.target, c.skipped = src, target_rel, None
     c.root_im = c.file_im = c.root_mo = c.file_mo = None
@@ -237,7 +238,8 @@ def run_case(project: Path, target_rel: str, src: str, excluded=(), excluded_imp
     (project / target_rel).write_text(src)
     target = Path(target_rel)
     with impl.in_dir(str(project)):
-        impl.reset_config(target=target, _excluded_names=list(excluded), _excluded_imports=list(excluded_imports))
+        impl.reset_config(target=target, _excluded_names=list(excluded), _excluded_imports=list(excluded_imports),
+                          **(extra_config or {}))
         tree = ast.parse(src)
         c.tree = tree
         with enter_file(target):
